@@ -158,6 +158,7 @@ type explorer struct {
 	shards                                     int64
 	stop                                       atomic.Bool
 	nonRepro, loneRepaired                     atomic.Int64
+	verbose                                    bool
 	quiesce                                    sync.RWMutex // workers hold it shared per word; mismatch handling holds it exclusively
 	collisions                                 map[string]int64
 	outcomes                                   *fw.Counter
@@ -311,6 +312,11 @@ func (e *explorer) judge(rc replayCase) *mismatch {
 		r = w.runWord(wd)
 	}
 	last := rc.Words[len(rc.Words)-1]
+	if e.verbose {
+		for j := range r.results {
+			fmt.Printf("  instance %d: results %v\n    final %+v\n", j, r.results[j], r.final[j])
+		}
+	}
 	return e.explain(rc.Cfg, last, r)
 }
 
@@ -900,7 +906,7 @@ func replay() {
 	}
 	dirs := newHostDirs()
 	defer os.RemoveAll(dirs.root)
-	e := &explorer{dirs: dirs}
+	e := &explorer{dirs: dirs, verbose: true}
 	if sc := doc.Replay.Separate; sc != nil {
 		fmt.Printf("replaying separate-runtime case %+v\n", *sc)
 		if m := judgeSeparate(*sc, dirs); m != nil {
